@@ -272,16 +272,30 @@ void print_conv(const std::string& sid, const bundle_t& b, double eps)
     if (ec && sc) ++C.conv_true;
 }
 
+// magnitude history of a bundle: FPBA's momentum points can take the centre to values of 1e7 and back to 1; the rounding
+// of the re-centring formula at that magnitude (2^-52 * 1e7 per step) stays in the rows for ever, so the tolerance of the
+// lower-bound oracle has to know the largest magnitude the rows went through, not only the current one
+std::map<std::string, double> g_maxmag;
+double note_mag(const std::string& sid, const bundle_t& b)
+{
+    double m = std::fabs(b.m_fx);
+    for (tensor_size_t i = 0; i < b.m_size; ++i) m = std::max(m, std::fabs(b.m_bundleE(i)));
+    auto& h = g_maxmag[sid];
+    if (std::isfinite(m)) h = std::max(h, m);
+    return h;
+}
+
 // direct oracle: every row is an affine minorant of f at the probe points, errors >= 0, centre value = f(centre)
 void oracle_rows(const std::string& sid, const bundle_t& b, const sharp_function_t& f, const std::vector<std::vector<double>>& probes)
 {
-    const auto n = b.dims();
+    const auto   n    = b.dims();
+    const double hist = note_mag(sid, b);
     for (tensor_size_t i = 0; i < b.m_size; ++i)
     {
         const double e = b.m_bundleE(i);
         double       smag = 0;
         for (tensor_size_t j = 0; j < n; ++j) smag += std::fabs(b.m_bundleS(i, j));
-        if (e < -1e-9 * (1.0 + std::fabs(b.m_fx)))
+        if (e < -1e-9 * (1.0 + std::fabs(b.m_fx)) - 1e-12 * hist)
         {
             std::printf("FAIL %s negative-error row=%d e=%s\n", sid.c_str(), static_cast<int>(i), vh::hexf(e).c_str());
             ++C.fails;
@@ -297,7 +311,7 @@ void oracle_rows(const std::string& sid, const bundle_t& b, const sharp_function
             }
             const double fz = f.value(z.data(), nullptr);
             ++C.oracle_checks;
-            if (lin > fz + 1e-9 * (mag + std::fabs(fz) + 1.0))
+            if (lin > fz + 1e-9 * (mag + std::fabs(fz) + 1.0) + 1e-12 * hist)
             {
                 std::printf("FAIL %s lower-bound row=%d of %d cut=%s > f(z)=%s z=%s e=%s fx=%s\n", sid.c_str(), static_cast<int>(i),
                             static_cast<int>(b.m_size), vh::hexf(lin).c_str(), vh::hexf(fz).c_str(), hv(z.data(), n).c_str(),
@@ -380,6 +394,10 @@ bool apply_append(const std::string& sid, bundle_t& b, bool serious, const vecto
     else
         b.append(y, gy, fy);
     print_state(sid, b);
+    note_mag(sid, b);
+    // the new row's error is fx - fy - gy.(x - y) computed in doubles: a curve-search trial point 1e15 away (fy ~ 1e16)
+    // leaves an absolute rounding error of ulp(fy) in it
+    if (std::isfinite(fy)) g_maxmag[sid] = std::max(g_maxmag[sid], std::fabs(fy));
     ++C.ops;
     (serious ? C.serious : C.nulls)++;
     return true;
@@ -394,8 +412,10 @@ void print_new(const std::string& sid, const bundle_t& b, int max_size, const so
     print_state(sid, b);
 }
 
+int g_force_max = 0; // probe-small: 3 or 4 (with 2 the threshold is an uninitialised value: copy and original may differ)
 int draw_max_size(vh::rng_t& r, bool small, bool sessions)
 {
+    if (g_force_max) return g_force_max;
     const int lo = small ? 2 : 5;
     switch (r.range(0, sessions ? 3 : 5))
     {
@@ -606,6 +626,7 @@ solver_state_t mirror_loop(const std::string& sid, const std::string& sname, con
     } probe;
 
     guarded = false;
+    long local_ops = 0;
     while (function.fcalls() + function.gcalls() < max_evals)
     {
         const auto& [t, status, y, gy, fy] = csearch.search(bundle, proximity.miu(), max_evals, epsilon, logger);
@@ -651,7 +672,8 @@ solver_state_t mirror_loop(const std::string& sid, const std::string& sname, con
             if (!apply_append(sid, bundle, false, y, gy, fy)) { guarded = true; break; }
         }
         ++C.mirror_ops;
-        if (C.mirror_ops % 4 == 0) oracle_rows(sid, bundle, function, make_probes(r, function, bundle, nullptr));
+        // the phase is per run (not per batch), so that `replay` of one case re-runs exactly the same oracle calls
+        if (++local_ops % 4 == 0) oracle_rows(sid, bundle, function, make_probes(r, function, bundle, nullptr));
     }
     state.update_calls();
     return state;
@@ -849,6 +871,23 @@ int main(int argc, char** argv)
         else if (what == "R") solver_run(cs, small, false);
         else if (what == "E") ell1_run(cs);
         std::printf("DONE replay fails=%d guards=%d\n", static_cast<int>(C.fails), static_cast<int>(C.guards));
+        return 0;
+    }
+    if (mode == "probe-small")
+    {
+        // directed probe of the known finding `C03-delete-largest-leaves-bundle-full`: solver runs with bundle::max_size in
+        // 2..4 (legal: the parameter's domain is [2,1000]); the mirrored loop detects, on a copy, the operation after which
+        // size() == capacity() (the next append would write behind the buffers) and stops there -- nothing overflows here
+        int hits = 0, runs = 0;
+        for (uint64_t k = 1; k <= 60 && hits < 3; ++k)
+        {
+            const auto before = C.hist["run_skipped_capacity_guard"];
+            g_force_max = 3 + static_cast<int>(k % 2);
+            solver_run(0xC03000ULL + k, true, false);
+            ++runs;
+            if (C.hist["run_skipped_capacity_guard"] > before) ++hits;
+        }
+        std::printf("PROBE-SMALL runs=%d guard_hits=%d fails=%d\n", runs, hits, static_cast<int>(C.fails));
         return 0;
     }
     const bool small    = argc > 2 && std::string(argv[2]) == "small";
